@@ -22,6 +22,7 @@ type CtxInfo struct {
 	Sequential bool               `json:"sequential"`
 	Contexts   []string           `json:"contexts"`
 	NoDownOK   bool               `json:"-"`
+	NoUp       map[string]bool    `json:"no_up,omitempty"` // contexts declared without `up` commands
 	// CancelledMid: the runner was cancelled while tasks were in flight. Which tasks got as far as their
 	// context `before` is then a matter of timing; what remains decided: every `before` is matched by an
 	// `after`, `up` ran once and first, `down` once and last.
@@ -67,11 +68,14 @@ func CheckCtxTrace(toks []string, info CtxInfo) []Finding {
 			}
 			continue
 		}
-		if n := count("up|S"); n != 1 {
+		if n := count("up|S"); n != 1 && !info.NoUp[cx] {
 			add("up-count", "context %s: `up` ran %d times (expected exactly once)", cx, n)
 		}
 		// nothing of this context before up finished
 		for i, x := range seq {
+			if info.NoUp[cx] {
+				break
+			}
 			if x == "up|E" {
 				break
 			}
@@ -135,6 +139,9 @@ func CheckCtxTrace(toks []string, info CtxInfo) []Finding {
 				add("token-after-down", "context %s: tokens after `down`: %v", cx, seq)
 			}
 			continue
+		}
+		if ncb != nca {
+			add("context-before-after-unbalanced", "context %s: `before` ran %d times, `after` %d times (every execution that got its `before` gets its `after`): %v", cx, ncb, nca, seq)
 		}
 		if ncb < nexec || ncb > nexec+nskip {
 			add("context-before-count", "context %s: `before` ran %d times for %d task executions (+%d skipped)", cx, ncb, nexec, nskip)
